@@ -87,7 +87,7 @@ m = {
  "hooks": {"guard": "lexgen_verif",
            "enable": "RUSTFLAGS=\"--cfg lexgen_verif\" cargo build/test --offline (harness/common.py build_repo, run_incrate_driver); dumps go to $LEXGEN_VERIF_DUMP",
            "baseline_off_cmd": "cd /repo && cargo test --workspace --no-fail-fast --offline",
-           "source_commits": ["1f25b14", "c0ade79"],
+           "source_commits": ["1f25b14", "c0ade79", "0326570"],
            "add_only": True},
  "engines": [{"name": "coq+correspondence", "path": "coq/ harness/ bin/vcheck",
               "serves_properties": sorted(P),
